@@ -14,7 +14,9 @@ RULE = ('histories of 20-60 SelectorMap operations (set/pop/copy/clear + queries
         'share a component suffix at some query and at least one pop or copy precedes a query; '
         'distinct = distinct canonical op list; one parameter addressed through several spellings and APIs; the names '
         'config_str() reports for functions, classes and registered methods whose class and method names recur in '
-        'other modules (structure compared with emitDoc of the mirror, every reported name resolved back)')
+        'other modules (structure compared with emitDoc of the mirror, every reported name resolved back), references written '
+        'with a partial dotted name that a later registration makes ambiguous or takes over as its complete name (the printed '
+        'form of every stored reference resolved back to its target)')
 TRUSTED_BASE = ['Lean 4.33 kernel', 'axioms ⊆ {propext, Classical.choice, Quot.sound}',
                 'JSON glue of Main.lean / Gin/Drv (str.split, join, ASCII identifier regex)',
                 'Python harness harness/props/c08.py', "CPython dict semantics (copy(), setdefault) are exercised, not modelled"]
@@ -270,8 +272,71 @@ def gen_reported_case(rng):
       late = G.gen_late_register(rng, 95)
       late.update(name=bare, module='lm2', _pymodule='lm2', _selector='lm2.' + bare)
       tail = [late]
+  # a reference written with a partial dotted name (`@n.f` for `m.n.f`) whose spelling a later registration takes over
+  # as ITS complete name (`f` of module `n`): "a name equal to a complete stored name resolves to exactly that entry",
+  # so the spelling as written now names the newcomer, and the name printed for the reference has to be another one
+  if rng.random() < 0.5:
+    every = all_names + ['gin.macro', 'gin.constant', 'gin.singleton'] + [t['_selector'] for t in tail]
+    cands = []
+    for o in regs + classes:
+      parts = o['_selector'].split('.')
+      for k in range(2, len(parts)):
+        sp = '.'.join(parts[-k:])
+        if refmodel.suffix_matches(every, sp) == [o['_selector']]:
+          cands.append((o, sp))
+    if cands:
+      tgt, sp = rng.choice(cands)
+      for _ in range(rng.randint(1, 2)):
+        reg = rng.choice(bindable)
+        cls = [n for n, c in G.param_classes(reg).items() if c == 'valid']
+        if not cls:
+          continue
+        ref = {'ref': [rng.choice([[], [], ['s'], ['s', 't']]), tgt['_selector'], rng.random() < 0.3], '_spelled': sp}
+        r = rng.random()
+        val = ref if r < 0.6 else ({'l': [rng.randint(0, 9), ref]} if r < 0.8 else {'t': [{'l': [ref, {'s': 'k'}]}]})
+        binds.append({'op': 'bind', 'scope': rng.choice(['', 'a', 'a/b']), 'sel': reg['_selector'], 'arg': rng.choice(cls),
+                      'val': val, '_form': 'text', 'block': False})
+      newer = G.gen_late_register(rng, 96)
+      lmod, _, lname = sp.rpartition('.')
+      newer.update(name=lname, module=lmod, _pymodule=lmod, _selector=sp)
+      tail = tail + [newer]
   return {'dom': 'gin', 'ops': ops + binds + tail + [{'op': 'cfgdoc'}], '_order2': binds + tail, '_regops': ops, '_width': [80, 4],
           '_kind': 'reported', '_imports': []}
+
+
+def _case_refs(v):
+  """The references of an encoded value, in order: [scopes, complete name of the target, evaluated]."""
+  if isinstance(v, dict):
+    if 'ref' in v:
+      return [[list(v['ref'][0]), v['ref'][1], bool(v['ref'][2])]]
+    return [r for k in ('l', 't') if k in v for x in v[k] for r in _case_refs(x)] + \
+        [r for kv in v.get('d', []) for x in kv for r in _case_refs(x)]
+  return []
+
+
+def _printed_references(case):
+  """Every reference held by the binding store after the whole history, as it is printed now: [scope, configurable,
+  parameter, printed text, complete name of the referenced entry, complete name the library resolves the printed
+  text to]."""
+  s = gindom.Session()
+  try:
+    for op in case['ops'][:-1]:
+      s.run_op(op)
+    cfg = s.gin.config
+    facts = []
+    for (scope, sel), params in list(cfg._CONFIG.items()):  # pylint: disable=protected-access
+      for p, v in params.items():
+        for ref in cfg.iterate_references({0: {0: v}}):
+          printed = repr(ref)
+          try:
+            back = cfg.parse_value(printed)
+            back = back.configurable.selector if isinstance(back, cfg.ConfigurableReference) else f'not a reference: {back!r}'[:80]
+          except Exception as e:  # pylint: disable=broad-except
+            back = f'{type(e).__name__}: {e}'[:120]
+          facts.append([scope, sel, p, printed, ref.configurable.selector, back])
+    return facts
+  finally:
+    s.cleanup()
 
 
 def gen_cases(rng, tier, boost=1):
@@ -295,6 +360,8 @@ def run_impl(case):
     from props import c06
     out = c06.run_impl(case)
     out['registered'] = [o['_selector'] for o in case['_regops']]
+    out['registered_at_end'] = [o['_selector'] for o in case['ops'] if o.get('op') == 'register']
+    out['printed_refs'] = _printed_references(case)
     return out
   if case['dom'] == 'gin':
     return gindom.run_impl(case)
@@ -390,6 +457,29 @@ def oracle(case, impl):
       return f'sections resolve to {sorted(resolved)} but the bound entries are {bound}'
     if impl.get('reparse') != 'ok':
       return f'the config string does not parse back: {impl.get("reparse")}'
+    # references: the name a reference is printed with resolves (by unique dotted suffix, a complete name winning)
+    # back to the entry the reference was written for, in the registry as it is after the whole history
+    final = {}
+    for op, res in zip(case['ops'], impl['out']):
+      if op.get('op') == 'bind' and 'err' not in res:
+        final[(op['scope'], op['sel'], op['arg'])] = op['val']
+    at_end = impl.get('registered_at_end', names) + ['gin.macro', 'gin.constant', 'gin.singleton']
+    seen = {}
+    for scope, sel, p, printed, target, back in impl.get('printed_refs', []):
+      seen.setdefault((scope, sel, p), []).append(target)
+      if printed.startswith('%'):
+        continue
+      name = printed.lstrip('@').rpartition('/')[2]
+      name = name[:-2] if name.endswith('()') else name
+      m = _matches(at_end, name)
+      if m != [target]:
+        return f'{scope}/{sel}.{p}: the reference to {target!r} is printed as {printed!r}, a name that resolves to {m}'
+      if back != target:
+        return f'{scope}/{sel}.{p}: the reference to {target!r} is printed as {printed!r}, which parses back to {back!r}'
+    for key, val in final.items():
+      want = sorted(r[1] for r in _case_refs(val))
+      if want and sorted(seen.get(key, [])) != want:
+        return f'{key}: written with references to {want}, the store holds references to {sorted(seen.get(key, []))}'
     return None
   if case['dom'] == 'gin':
     return refmodel.check_history(case, impl, {'bind', 'query', 'getb', 'getbq', 'config', 'finalize', 'locked'})
